@@ -5,7 +5,12 @@ check(s) of the property it breaks, records whether a VIOLATION was reported, an
 Writes seeded/RESULTS.json."""
 import json, os, subprocess, sys, time
 HERE = os.path.dirname(os.path.dirname(os.path.abspath(__file__)))
-REPO = "/repo"
+REPO = "/tmp/seed/apply"      # scratch worktree of /repo at its HEAD: /repo itself stays untouched while background runs use it
+import subprocess as _sp
+if not os.path.isdir(REPO):
+    _sp.run("git -C /repo worktree add -q --detach %s HEAD" % REPO, shell=True, check=True)
+_sp.run("git -C %s checkout -q --detach $(git -C /repo rev-parse HEAD) && git -C %s checkout -q HEAD -- ." % (REPO, REPO), shell=True, check=True)
+os.environ["EUPS_REPO"] = REPO
 args = [a for a in sys.argv[1:] if not a.startswith("--")]
 tier = "quick"; seeds = [0]
 for i, a in enumerate(sys.argv):
